@@ -258,3 +258,22 @@ PROPS["C15"]["domains"] = PROPS["C15"]["domains"] + [{"name": "p05", "cfgs": ["A
 # says "the text is not the one pushed with this error"
 PROPS["C18"]["domains"] = PROPS["C18"]["domains"] + [{"name": "heap", "cfgs": ["B"]}]
 PROPS["C18"]["clauses"] = PROPS["C18"]["clauses"] + ["C20.text_not_intact"]
+
+# Compiler-dialect configurations (harness/build.sh): E = library sources as strict ISO C99 (cc.h selects the library's own
+# OUR_strncasecmp / BSD_strnlen / OUR_strndup instead of libc), F = GNU C89 (no <stdbool.h>: scpi_bool_t is `unsigned char`,
+# so a conversion to scpi_bool_t keeps the low byte instead of testing for non-zero).  Behaviour must be the same as in
+# configuration A; the model and the judges are those of A.
+PROPS["C03"]["domains"] = PROPS["C03"]["domains"] + [{"name": "match", "cfgs": ["E"]}]
+PROPS["C02"]["domains"] = PROPS["C02"]["domains"] + [{"name": "p02", "cfgs": ["E"], "keep": "P,H,G,E-113,V,U", "clauses": ["C03.api_"]}]
+PROPS["C04"]["domains"] = PROPS["C04"]["domains"] + [{"name": "p04", "cfgs": ["E"], "keep": "P,H,I,L,B,C,N", "clauses": ["C05.reader_rejected_valid_item"]}]
+# (no queue/E: the live-allocation counter of the queue domain wraps strndup at link time and does not see OUR_strndup)
+# C10 in the static-heap build: "text comes back unmodified with the error it was pushed with" is then a statement about the
+# circular heap; its histories are part of C10's check with the clause that says the text is not the one pushed (as for C18)
+PROPS["C10"]["domains"] = PROPS["C10"]["domains"] + [{"name": "heap", "cfgs": ["B"]}]
+PROPS["C10"]["clauses"] = PROPS["C10"]["clauses"] + ["C20.text_not_intact"]
+# C02 in the static-heap build: the -113 text goes through the heap (sanitizer faults, handler sequence, error codes)
+PROPS["C02"]["domains"] = PROPS["C02"]["domains"] + [{"name": "p02", "cfgs": ["B"], "keep": "P,H,G,E-113,V,U", "clauses": ["C03.api_"]}]
+PROPS["C11"]["domains"] = PROPS["C11"]["domains"] + [{"name": "regs", "cfgs": ["F"], "keep": "regs"}]
+PROPS["C12"]["domains"] = PROPS["C12"]["domains"] + [{"name": "regs", "cfgs": ["F"]}]
+for _k in ("C02", "C03", "C04", "C11", "C12"):
+    PROPS[_k]["assumptions"] = PROPS[_k]["assumptions"] + ["compiler-dialect configurations E (strict ISO C99: own strncasecmp / strnlen / strndup fall-backs) and F (GNU C89: scpi_bool_t = unsigned char) are exercised by the correspondence domains named <domain>/E, <domain>/F; they must behave like configuration A"]
